@@ -15,7 +15,7 @@
 (***************************************************************************)
 EXTENDS Integers, Sequences, TLC
 
-SQTNew == [rs |-> FALSE, qf |-> {"L"}, eq |-> <<>>, rflag |-> FALSE, cur |-> 0, disp |-> FALSE]
+SQTNew == [rs |-> FALSE, qf |-> {"L"}, eq |-> <<>>, rflag |-> FALSE, cur |-> 0, disp |-> FALSE, inRe |-> FALSE]
 
 SQTEnc(qf) == (IF "L" \in qf THEN 1 ELSE 0) + (IF "R" \in qf THEN 2 ELSE 0)
 SQTReason(n) == IF n = 1 THEN "L" ELSE "R"
@@ -45,8 +45,10 @@ SQTStep(x, r) ==
                  THEN SQTRes([x EXCEPT !.eq = Tail(@)], IF x.qf # {} THEN {SQTErr("C03", "queued " \o r.ev \o " event processed while the subscription is queueing " \o ToString(x.qf))} ELSE {})
             ELSE SQTRes(x, {SQTErr("C03", r.ev \o " event processed that is neither the event just received nor the head of the queue (queue " \o ToString(x.eq) \o ")")})
       [] r.kind = "subQueue" ->
-            LET x1 == [x EXCEPT !.qf = @ \cup {SQTReason(r.reason)}]
-            IN SQTRes(x1, IF r.qf # SQTEnc(x1.qf) THEN {SQTErr("C03", "queueing flag " \o ToString(r.qf) \o " after queueEvents, SubQueueOps says " \o ToString(SQTEnc(x1.qf)))} ELSE {})
+            LET x1 == [x EXCEPT !.qf = @ \cup {SQTReason(r.reason)}, !.inRe = FALSE]
+            IN SQTRes(x1, (IF r.qf # SQTEnc(x1.qf) THEN {SQTErr("C03", "queueing flag " \o ToString(r.qf) \o " after queueEvents, SubQueueOps says " \o ToString(SQTEnc(x1.qf)))} ELSE {})
+                          \* queueing for a re-check happens in handleReaccess only (its note comes first)
+                          \cup (IF r.reason = 2 /\ ~x.inRe THEN {SQTErr("C06", "events queued for an access re-check that no reaccess started")} ELSE {}))
       [] r.kind = "subUnqueue" ->
             LET x1 == [x EXCEPT !.qf = @ \ {SQTReason(r.reason)}]
             IN SQTRes(x1, (IF r.qf # SQTEnc(x1.qf) THEN {SQTErr("C03", "queueing flag " \o ToString(r.qf) \o " after unqueueEvents, SubQueueOps says " \o ToString(SQTEnc(x1.qf)))} ELSE {})
@@ -54,7 +56,7 @@ SQTStep(x, r) ==
       [] r.kind = "reaccessDeferred" ->
             SQTRes([x EXCEPT !.rflag = TRUE], IF x.qf = {} /\ ~x.disp THEN {SQTErr("C06", "re-check deferred although the subscription is not queueing")} ELSE {})
       [] r.kind = "reaccess" ->
-            SQTRes([x EXCEPT !.rflag = FALSE], IF x.qf # {} THEN {SQTErr("C06", "re-check started while the subscription is queueing " \o ToString(x.qf))} ELSE {})
+            SQTRes([x EXCEPT !.rflag = FALSE, !.inRe = TRUE], IF x.qf # {} THEN {SQTErr("C06", "re-check started while the subscription is queueing " \o ToString(x.qf))} ELSE {})
       [] r.kind = "dispose" -> SQTRes([x EXCEPT !.disp = TRUE, !.rs = FALSE, !.eq = <<>>, !.cur = 0], {})
       [] OTHER -> SQTRes(x, {})
 
